@@ -8,6 +8,7 @@ import (
 	"fmt"
 	"go/parser"
 	"go/token"
+	"go/types"
 	"os"
 	"os/exec"
 	"path/filepath"
@@ -73,7 +74,7 @@ func nameClass(n string) string {
 	if n == "" {
 		return "usable" // taken from the grammar
 	}
-	if goKeywords[n] || n == "_" {
+	if goKeywords[n] || token.IsKeyword(n) || n == "_" {
 		return "unusable"
 	}
 	for i, r := range n {
@@ -81,7 +82,7 @@ func nameClass(n string) string {
 			return "unusable"
 		}
 	}
-	if predeclared[n] {
+	if predeclared[n] || types.Universe.Lookup(n) != nil {
 		return "either"
 	}
 	return "usable"
@@ -428,6 +429,16 @@ func genConfig(t *rapid.T) Config {
 		Pre:      rapid.SampledFrom([]string{"none", "none", "dir", "dirwithfiles", "file", "symlinkdir", "dangling", "unrelated"}).Draw(t, "pre"),
 		NameFlag: rapid.SampledFrom([]string{"", "", "=", " "}).Draw(t, "nameFlag"),
 		Name:     rapid.SampledFrom(names).Draw(t, "name"),
+	}
+	if rapid.IntRange(0, 5).Draw(t, "keywordName") == 0 {
+		// every keyword and predeclared identifier of the language (read from the go/token and go/types tables)
+		var words []string
+		for k := token.BREAK; k <= token.VAR; k++ {
+			words = append(words, k.String())
+		}
+		words = append(words, types.Universe.Names()...)
+		sort.Strings(words)
+		c.Name = rapid.SampledFrom(words).Draw(t, "word")
 	}
 	if c.NameFlag == " " && c.Name == "" {
 		c.NameFlag = "=" // '-name' followed by an empty argument is the same as -name=
